@@ -96,8 +96,10 @@ def install(nodehash=None, scratch=True):
     nodehash = nodehash or os.environ.get("MC_NODEHASH", "pos")
     if nodehash != "default":
         ast.AST.__hash__ = NODEHASH[nodehash]
-    if "/repo" not in sys.path:
-        sys.path.insert(0, "/repo")
+    repo = os.environ.get("MC_REPO", "/repo")  # MC_REPO: maintenance only (mutants / seeded changes in a scratch worktree)
+    if repo in sys.path:
+        sys.path.remove(repo)
+    sys.path.insert(0, repo)
     if scratch:
         new_scratch()
     import pyrefact.main  # noqa: F401
